@@ -289,6 +289,10 @@ func TestVerif_C14(t *testing.T) {
 			wellFormed = append(wellFormed, cl)
 		}
 	}
+	// MOUNT MNT too: its failure status is a mountstat3, whatever the backend error was
+	for _, mp := range []string{"/", "/d", "/d/f", "/nope"} {
+		wellFormed = append(wellFormed, [5]any{uint32(vfProgMount), uint32(3), uint32(1), "valid-form", (&xdrw.W{}).Str(mp).B})
+	}
 	sweepCalls := 0
 	for si, fe := range sweep {
 		for n := 1; n <= 3; n++ {
